@@ -1,5 +1,7 @@
 SPECIFICATION TSpec
 CONSTANTS
+  Intervals = {0}
+  Cycles = {0}
   MaxLen = 8
   MaxIter = 9
   MaxOps = 99
